@@ -7,6 +7,7 @@ Line:  run <source> <cv> <n> <gib> <refit> <ops> <table>
   params : key=v;key=v  (`@` = {})
   cv     : s|e : fh : wl : step : iw|none : T|F
   ops    : comma list of F (fit) p (predict) s (update_predict_single) U (update_predict) u (update) c (cutoff)
+           m (probe of the remembered series behind the guard of a tuner method)
   table  : one entry per distinct parameter set,  params>scores>outsF>outsT>outsUnfitted , entries joined by `|`
            scores = per-fold scores of evaluate() (rationals / nan, `-` = none) or an error token E:…
            outs*  = `~`-joined result tokens, one per op position, of a forecaster constructed directly with
@@ -150,7 +151,7 @@ def runOps (m : Machine (Params × Bool) Nat String Nat) (cfg : Config CvSpec) (
         (r.1, (match o with | .ok _ => "ok" | .error e => showErr e) :: r.2))
     else
       let call? : Option (Call Nat) :=
-        if k == "p" then some (Call.method pos)
+        if k == "p" || k == "m" then some (Call.method pos)
         else if k == "s" || k == "U" then some (Call.updatePredict (fun _ => pos) none)
         else if k == "u" then some (Call.update (fun _ => pos) none)
         else if k == "c" then some (Call.cutoff pos)
